@@ -41,6 +41,18 @@ def kabsch_rmsd(X, Y):
     return math.sqrt(np.sum(diff * diff) / len(X))
 
 
+def kabsch_fit(X, Y):
+    """X moved onto Y by the optimal rotation about the centres: R (x - cx) + cy"""
+    X = np.array(X)
+    Y = np.array(Y)
+    cx, cy = np.mean(X, axis=0), np.mean(Y, axis=0)
+    H = (X - cx).T @ (Y - cy)
+    U, S, Vt = np.linalg.svd(H)
+    d = np.sign(np.linalg.det(Vt.T @ U.T))
+    R = Vt.T @ np.diag([1.0, 1.0, d]) @ U.T
+    return (R @ (X - cx).T).T + cy
+
+
 def gen_case(rng, idx):
     N = 16
     m = rng.randrange(4, 9)
@@ -81,6 +93,24 @@ def gen_case(rng, idx):
     cfg += cv("r_all", "  rmsd {\n" + grp(lst, "refPositionsFile ref_all.xyz") + "  }\n")
     cfg += cv("r_grp", "  rmsd {\n" + grp(lst, "refPositionsFile ref_grp.xyz") + "  }\n")
     cfg += cv("r_srt", "  rmsd {\n" + grp(slst, "refPositionsFile ref_all.xyz") + "  }\n")
+    # symmetry-adapted RMSD: two or three orderings of the group's atoms besides the listed one; the value is the smallest
+    # deviation from the reference over the orderings (the atoms are superposed once, on the reference in the listed order).
+    # The reference is a noisy copy of the positions with the atoms of ONE of the orderings exchanged, so that any of the
+    # orderings (first, middle, last, or none) may be the closest
+    perms = []
+    for _ in range(rng.choice([2, 2, 3])):
+        q = list(ids)
+        for _k in range(rng.choice([1, 2, 3])):
+            a, b = rng.sample(range(m), 2)
+            q[a], q[b] = q[b], q[a]
+        perms.append(q)
+    win = rng.randrange(len(perms) + 1)
+    src = ids if win == len(perms) else perms[win]
+    # ref[i] (reference of the atom listed i-th) = position of the atom that the winning ordering puts where ids[i] is
+    inv = {src[i]: ids[i] for i in range(m)}
+    ref_perm = [[x + rng.uniform(-0.4, 0.4) for x in pos[inv[a] - 1]] for a in ids]
+    cfg += cv("r_perm", "  rmsd {\n" + grp(lst, "refPositions " + vecs(ref_perm)) +
+              "".join("    atomPermutation %s\n" % " ".join(str(a) for a in q) for q in perms) + "  }\n")
     cfg += cv("e_inl", "  eigenvector {\n" + grp(lst, "refPositions " + inl_ref + "\n    vector " + inl_vec) + "  }\n")
     cfg += cv("e_all", "  eigenvector {\n" + grp(lst, "refPositionsFile ref_all.xyz\n    vectorFile vec_all.xyz") + "  }\n")
     cfg += cv("e_grp", "  eigenvector {\n" + grp(lst, "refPositionsFile ref_grp.xyz\n    vectorFile vec_grp.xyz") + "  }\n")
@@ -101,7 +131,7 @@ def gen_case(rng, idx):
     frames = [pos, [[x + rng.uniform(-0.5, 0.5) for x in p] for p in pos]]
     for f in frames:
         scn += "pos " + " ".join(fnum(x) for p in f for x in p) + "\nstep\n"
-    return {"idx": idx, "ids": ids, "files": files, "scn": scn, "frames": frames, "ref_all": ref_all,
+    return {"idx": idx, "ids": ids, "files": files, "scn": scn, "frames": frames, "ref_all": ref_all, "perms": perms, "ref_perm": ref_perm,
             "listing": "sorted" if ids == srt else ("rotated" if kind in (1, 2) else "random")}
 
 
@@ -164,6 +194,26 @@ def run_files(c, tier):
                         break
                 c.nontrivial("reffile|%s|%s" % (fam, case["listing"]))
                 c.bump("reference_file_comparisons")
+            if not bad and "r_perm" in cvs:
+                ids = case["ids"]
+                X = [case["frames"][fi][a - 1] for a in ids]
+                Xf = kabsch_fit(X, case["ref_perm"])
+                ref = np.array(case["ref_perm"])
+                sums = [float(np.sum((Xf - ref) ** 2))]
+                for q in case["perms"]:
+                    idxs = [ids.index(a) for a in q]
+                    sums.append(float(np.sum((Xf - ref[idxs]) ** 2)))
+                ex = math.sqrt(min(sums) / len(ids))
+                got = float(cvs["r_perm"]["x"][0])
+                c.count()
+                if abs(got - ex) > 1e-8 * max(1.0, ex):
+                    c.violation("rmsd_permutations:value:best_%d_of_%d" % (sums.index(min(sums)), len(sums) - 1),
+                                "atoms %s, orderings %s: rmsd %.12g; smallest deviation %.12g over the listed order and the %d atomPermutation orderings "
+                                "(per ordering: %s)" % (ids, case["perms"], got, ex, len(case["perms"]), ["%.6g" % math.sqrt(x / len(ids)) for x in sums]), files)
+                    bad = True
+                else:
+                    c.nontrivial("rmsd_perm|%d|best%d" % (len(case["perms"]), sums.index(min(sums))))
+                    c.bump("rmsd_permutation_values")
             if bad:
                 break
         if not bad:
